@@ -79,11 +79,11 @@ func rebalanceDecision(c *Ctx, id string) {
 }
 
 // sessionFlags (C13/C12/C16): the small flags a session hangs on.
-//  * Stream.Close records its argument in the flag the end listener reads, before anything is closed;
-//  * Close stops the mitigation ⇔ ¬Disabled and the schedule ⇔ checkpoint≠nil (polarity, not just presence);
-//  * Close hands the finish token ⇔ the stream did not already finish by itself;
-//  * IsOpen tells the truth: open←true is the last store of Open, open←false is stored by Close;
-//  * Stream.Save is Checkpoint.Save; Open starts the schedule; the schedule's loop saves.
+//   - Stream.Close records its argument in the flag the end listener reads, before anything is closed;
+//   - Close stops the mitigation ⇔ ¬Disabled and the schedule ⇔ checkpoint≠nil (polarity, not just presence);
+//   - Close hands the finish token ⇔ the stream did not already finish by itself;
+//   - IsOpen tells the truth: open←true is the last store of Open, open←false is stored by Close;
+//   - Stream.Save is Checkpoint.Save; Open starts the schedule; the schedule's loop saves.
 func sessionFlags(c *Ctx, id string) {
 	w := c.W
 	cl := w.Method("stream", "stream", "Close")
@@ -642,7 +642,9 @@ func observeCallbackExact(c *Ctx, id string) {
 		Choices: map[string]int{"class": len(classes), "ncopies": 3, "replica": 2},
 		Groups:  []Group{{Atoms: []string{rN + ".activeGroupID", genN}, EqOnly: true}, {Atoms: []string{brN, resP + ".VbUUID"}, EqOnly: true}},
 		Args: map[string]func(st *State) AV{
-			idxN: func(st *State) AV { return avPtr{&cell{typ: types.Typ[types.Int], val: avInt{conc: int64(st.C("replica"))}, have: true, sym: idxN}} },
+			idxN: func(st *State) AV {
+				return avPtr{&cell{typ: types.Typ[types.Int], val: avInt{conc: int64(st.C("replica"))}, have: true, sym: idxN}}
+			},
 		},
 		Valid: func(st *State) bool {
 			if st.B(errP+"==nil") && st.C("class") != len(classes)-1 {
@@ -779,12 +781,13 @@ func observeCallbackExact(c *Ctx, id string) {
 }
 
 // mitigationLifecycle (C07/C13): the plumbing around the observe callback, as path languages and must-happen clauses.
-//   Start:            waitFirstConfig ; (err ⇒ panic) ; reconfigure ; go { loop: configWatch }
-//   Stop:             closed←true unconditionally (the callback and the observe loop test it)
-//   startObserve:     fresh vbUUID map ; loadVbUUIDMap ; ticker ; loop
-//   loadVbUUIDMap:    one loader per vBucket of the table ; Wait ; (err ⇒ panic)
-//   loadVbUUID:       failover log (error returned) ; vbUUIDMap[vbID] ← entry 0
-//   SetAbsent/IsAbsent: the flag is stored / returned
+//
+//	Start:            waitFirstConfig ; (err ⇒ panic) ; reconfigure ; go { loop: configWatch }
+//	Stop:             closed←true unconditionally (the callback and the observe loop test it)
+//	startObserve:     fresh vbUUID map ; loadVbUUIDMap ; ticker ; loop
+//	loadVbUUIDMap:    one loader per vBucket of the table ; Wait ; (err ⇒ panic)
+//	loadVbUUID:       failover log (error returned) ; vbUUIDMap[vbID] ← entry 0
+//	SetAbsent/IsAbsent: the flag is stored / returned
 func mitigationLifecycle(c *Ctx, id string) {
 	w := c.W
 	m := func(name string) *ssa.Function { return w.Method("couchbase", "rollbackMitigation", name) }
@@ -1414,10 +1417,11 @@ func mitigationStopHandshake(c *Ctx, id string) {
 // configuration snapshot, resolving collection ids, the dispatch itself, AsyncOp.Wait, an errgroup's Wait. None of
 // their errors may be dropped (the call would report success for something that never happened, or — for the dispatch
 // and the wait — go on to receive from a channel nobody will ever send on and hang):
-//   (a) every error-returning call in a function that contains such an operation (its worker closures included) has
-//       its error reach a return, a panic or a channel send — along edges on which it can be non-nil;
-//   (b) every receive from a result channel made in the wrapper is reached only under err == nil of Wait;
-//   (c) a function that hands work to an errgroup calls Wait and reports its result.
+//
+//	(a) every error-returning call in a function that contains such an operation (its worker closures included) has
+//	    its error reach a return, a panic or a channel send — along edges on which it can be non-nil;
+//	(b) every receive from a result channel made in the wrapper is reached only under err == nil of Wait;
+//	(c) a function that hands work to an errgroup calls Wait and reports its result.
 func wrapperStepErrors(c *Ctx, id string) {
 	w := c.W
 	roots := map[*ssa.Function]bool{}
